@@ -798,7 +798,8 @@ impl Compiler {
         self.compile_block_statement(expr.then_stmt)?;
         // Get rid of the extra Pop that is emitted as a result of compiling 'then_stmt'.
         // This is so that we don't loose the result of the 'if' expression
-        if self.is_last_instruction(Opcode::Pop) {
+        // (only a final expression statement leaves such a Pop behind)
+        if !no_value && self.is_last_instruction(Opcode::Pop) {
             self.remove_last_pop();
         }
         // If 'then' statement does not produce a value, then use a Null
@@ -827,7 +828,7 @@ impl Compiler {
                 };
                 // TODO: Find line number of 'else_stmt'
                 self.compile_block_statement(else_stmt)?;
-                if self.is_last_instruction(Opcode::Pop) {
+                if !no_value && self.is_last_instruction(Opcode::Pop) {
                     self.remove_last_pop();
                 }
                 // If 'else' statement does not produce a value, then use a Null
@@ -1019,7 +1020,7 @@ impl Compiler {
             // Get rid of the extra Pop that is emitted as a result of
             // compiling 'arm.body'. This is so that we don't loose the result
             // of the 'match' expression
-            if self.is_last_instruction(Opcode::Pop) {
+            if !no_value && self.is_last_instruction(Opcode::Pop) {
                 self.remove_last_pop();
             }
             // If 'then' statement does not produce a value, then use a Null
